@@ -32,6 +32,10 @@ for cname, rec in m21.items():
     for name, spec in rec["slots"]:
         if name == "confidence" and spec["kind"] == "IntegerProperty":
             spec["min"], spec["max"] = 0, 100
+# STIX 2.0 Part 4 section 2.12 (Network Traffic): "The port value MUST be in the range of 0 - 65535."
+for name, spec in m20["NetworkTraffic"]["slots"]:
+    if name in ("src_port", "dst_port"):
+        spec["min"], spec["max"] = 0, 65535
 dec = tm.json_decorators()
 for k, rec in dec.items():
     for name, spec in rec["slots"] or []:
